@@ -221,6 +221,29 @@ def stepA (capFirst portable : Bool) (s : St) (af : AF) : Op → Out (St × Ret)
       | .fault => .fault
   | op => .ofOption (step portable s op)
 
+/-- operations that grow the vector in place (the ones std::vector promises "no effects" for when the
+    allocation throws) -/
+def Op.growsInPlace : Op → Bool
+  | .reserve _ _ | .emplaceBack _ _ | .emplace _ _ _ | .insertSorted _ _ | .insertRange _ _ _ | .resize _ _ => true
+  | _ => false
+
+/-- the request (in elements) the call hands to `allocate`, read off sizes and capacities; `none` = the call
+    does not allocate -/
+def allocRequest (s : St) : Op → Option Nat
+  | .reserve r n => if (s.regs r).cap < n then some n else none
+  | .emplaceBack r _ | .emplace r _ _ | .insertSorted r _ =>
+    if (s.regs r).cap < (s.regs r).size + 1 then some ((s.regs r).size + 1) else none
+  | .insertRange r _ src =>
+    if src.count ≠ 0 ∧ (s.regs r).cap < (s.regs r).size + src.count then some ((s.regs r).size + src.count) else none
+  | .resize r n => if (s.regs r).cap < n then some n else none
+  | _ => none
+
+/-- does the armed failure strike this call? -/
+def allocFails (s : St) (af : AF) (op : Op) : Bool :=
+  match allocRequest s op with
+  | some q => af.hit 0 q
+  | none => false
+
 /-- a history; each operation may have an allocation failure armed; the caller catches std::bad_alloc and goes
     on using the vectors -/
 def runA (capFirst portable : Bool) : St → List (Op × Option AF) → Option St
